@@ -203,6 +203,12 @@ var (
 	seedOverflow = seed{"overflow-used", []O{{K: pagedrv.OBegin}, {K: pagedrv.OAlloc, A: 2}, {K: pagedrv.OWriteAll}, {K: pagedrv.OCommit},
 		{K: pagedrv.OBegin}, {K: pagedrv.OAllocAvail, A: 0}, {K: pagedrv.OCommit},
 		{K: pagedrv.OBegin, B: 1}, {K: pagedrv.OWrite, A: 0}, {K: pagedrv.OWrite, A: 1}, {K: pagedrv.OCommit}}}
+	// full bounded file with overwrite pages, mapping page and free list in the overflow area, of which a later
+	// commit released a part (prefix of the history that exposed D17)
+	seedOverflowPartial = seed{"overflow-partly-released", []O{{K: pagedrv.OBegin, B: 1}, {K: pagedrv.OAlloc, A: 7}, {K: pagedrv.OCommit},
+		{K: pagedrv.OBegin, B: 1}, {K: pagedrv.OFreeEveryOther}, {K: pagedrv.OAllocAvail, A: 0}, {K: pagedrv.OWriteAll}, {K: pagedrv.OCommit},
+		{K: pagedrv.OBegin, A: 1, B: 1}, {K: pagedrv.ORollback},
+		{K: pagedrv.OBegin, B: 1}, {K: pagedrv.OWrite, A: -1}, {K: pagedrv.OCommit}}}
 	seedWide = seed{"wide-overwritten", []O{{K: pagedrv.OBegin}, {K: pagedrv.OAlloc, A: 14}, {K: pagedrv.OWriteAll}, {K: pagedrv.OCommit},
 		{K: pagedrv.OBegin}, {K: pagedrv.OWriteAll}, {K: pagedrv.OCommit}}}
 )
@@ -292,18 +298,50 @@ func runC04(ctx *core.Ctx, pool *par.Pool) {
 		ctx.Share(ctx.Budget() / time.Duration(len(runs)))
 		cfg := run.Cfg
 		var all []*xstate.Node
-		st := xstate.BFS(ctx, pool, xstate.Spec{Cfg: cfg, Seed: run.Seed.Ops, Alphabet: allocAlphabet(true, !ctx.Quick()), MaxDepth: run.Depth,
+		st := xstate.BFS(ctx, pool, xstate.Spec{Cfg: cfg, Seed: run.Seed.Ops, Alphabet: allocAlphabet(true, !ctx.Quick()), MaxDepth: run.Depth, Flags: []string{"diskfmt"},
 			OnTransition: sampleHook(ctx, cfg),
 			OnLevel:      func(d int, fresh []*xstate.Node) { all = append(all, fresh...) }})
 		total.States += st.States
 		total.Transitions += st.Transitions
 		ctx.Set("depth_"+run.name(), st.Depth)
 		// allocation sweep in every state up to depth-1 (the last level is swept too if time allows)
-		xstate.RunProbes(ctx, pool, cfg, all, "sweep", nil, nil, func(n *xstate.Node, r *xstate.ProbeResult) { sweeps++ })
+		xstate.RunProbes(ctx, pool, cfg, all, "sweep", nil, []string{"diskfmt"}, func(n *xstate.Node, r *xstate.ProbeResult) { sweeps++ })
+	}
+	// transaction bodies on files that live in their overflow area: narrow alphabet, deeper
+	ovRuns := []bfsRun{{pagedrv.CfgA, seedOverflowPartial, 6}, {pagedrv.CfgA, seedOverflow, 5}}
+	if !ctx.Quick() {
+		ovRuns = []bfsRun{{pagedrv.CfgA, seedOverflowPartial, 8}, {pagedrv.CfgA, seedOverflow, 8}, {pagedrv.CfgB, seedOverflowPartial, 8}, {pagedrv.CfgB, seedOverflow, 8}, {pagedrv.CfgD, seedOverflow, 7}}
+	}
+	for _, run := range ovRuns {
+		ctx.Share(ctx.Budget() / time.Duration(len(runs)+len(ovRuns)))
+		var all []*xstate.Node
+		st := xstate.BFS(ctx, pool, xstate.Spec{Cfg: run.Cfg, Seed: run.Seed.Ops, Alphabet: overflowBodyAlphabet(), MaxDepth: run.Depth, Flags: []string{"diskfmt"},
+			OnTransition: sampleHook(ctx, run.Cfg),
+			OnLevel:      func(d int, fresh []*xstate.Node) { all = append(all, fresh...) }})
+		total.States += st.States
+		total.Transitions += st.Transitions
+		ctx.Set("depth_overflow_"+run.name(), st.Depth)
+		xstate.RunProbes(ctx, pool, run.Cfg, all, "sweep", nil, []string{"diskfmt"}, func(n *xstate.Node, r *xstate.ProbeResult) { sweeps++ })
 	}
 	ctx.Unshare()
 	ctx.Set("allocation_sweeps", sweeps)
 	finishBFS(ctx, total, sweeps)
+}
+
+func overflowBodyAlphabet() []O {
+	return []O{
+		{K: pagedrv.OBegin, B: 1},
+		{K: pagedrv.OBegin},
+		{K: pagedrv.OBegin, A: 1, B: 1},
+		{K: pagedrv.OFreeEveryOther},
+		{K: pagedrv.OFree, A: -1},
+		{K: pagedrv.OWriteAll, B: pagedrv.WFull},
+		{K: pagedrv.OWrite, A: 0, B: pagedrv.WFull},
+		{K: pagedrv.OAlloc, A: 1},
+		{K: pagedrv.OFlushTx},
+		{K: pagedrv.OCommit},
+		{K: pagedrv.ORollback},
+	}
 }
 
 // ---- C11 ----
@@ -523,4 +561,50 @@ func runC10(ctx *core.Ctx, pool *par.Pool) {
 	ctx.Set("reopen_points_compared", reopens)
 	ctx.Set("twin_continuations_compared", twinsRun)
 	finishBFS(ctx, total, twinsRun)
+}
+
+// orderAlphabet: the transaction bodies in which the order of the library's
+// map iterations (dirty pages flushed, overwrite mappings walked) decides
+// which page gets which internal page, on nearly full files with and without
+// the overflow area.
+func orderAlphabet() []O {
+	a := []O{
+		{K: pagedrv.OBegin},
+		{K: pagedrv.OBegin, B: 1},
+		{K: pagedrv.OBegin, A: 1},
+		{K: pagedrv.OBegin, A: 1, B: 1},
+		{K: pagedrv.OAlloc, A: 2},
+		{K: pagedrv.OAllocAvail, A: 0},
+		{K: pagedrv.OAllocAvail, A: 1},
+		{K: pagedrv.OWriteAll, B: pagedrv.WFull},
+		{K: pagedrv.OWrite, A: 0, B: pagedrv.WFull},
+		{K: pagedrv.OWrite, A: -1, B: pagedrv.WFull},
+		{K: pagedrv.OFree, A: -1},
+		{K: pagedrv.OFreeEveryOther, A: 0},
+		{K: pagedrv.ORollback},
+		{K: pagedrv.OReopen},
+	}
+	for m := 0; m < 3; m++ {
+		a = append(a, O{K: pagedrv.OFlushTx, M: m}, O{K: pagedrv.OCommit, M: m}, O{K: pagedrv.OCheckpoint, M: m})
+	}
+	return a
+}
+
+func init() {
+	register(&Check{ID: "XORD", Level: "model_checking", Replay: xstate.ReplayDoc, Run: runOrderExperiment})
+}
+
+func runOrderExperiment(ctx *core.Ctx, pool *par.Pool) {
+	ctx.SetBudget(20 * time.Minute)
+	runs := []bfsRun{{pagedrv.CfgA, seedFull, 6}, {pagedrv.CfgA, seedOverflow, 6}, {pagedrv.CfgB, seedOverflow, 6}, {pagedrv.CfgA, seedWAL, 6}}
+	var total xstate.Stats
+	for _, run := range runs {
+		ctx.Share(ctx.Budget() / time.Duration(len(runs)))
+		st := xstate.BFS(ctx, pool, xstate.Spec{Cfg: run.Cfg, Seed: run.Seed.Ops, Alphabet: orderAlphabet(), MaxDepth: run.Depth, Flags: []string{"diskfmt"}})
+		total.States += st.States
+		total.Transitions += st.Transitions
+		ctx.Set("depth_"+run.name(), st.Depth)
+	}
+	ctx.Unshare()
+	finishBFS(ctx, total, 0)
 }
